@@ -9,6 +9,7 @@ CONSTANTS
  DelayBeforeStart = TRUE
  CancelInPlace = FALSE
  ForgetDiscarded = TRUE
+ DropLateBoxes = FALSE
  Record = FALSE
 INVARIANT RunAtMostOnce
 CHECK_DEADLOCK FALSE
